@@ -61,6 +61,7 @@ partial def jPyExpr (j : Json) : Except String PyExpr := do
   | [.str "attr", p, a] => pure (.attr (← jStr p) (← jStr a))
   | [.str "attrdeep"] => pure .attrDeep
   | [.str "boolop", k, vals] => pure (.boolop ((← jStr k) == "and") (← (← jArr vals).mapM jPyExpr))
+  | [.str "callkw"] => pure .callKw
   | [.str "other"] => pure .other
   | _ => .error s!"bad expr {j.compress}"
 
